@@ -249,12 +249,13 @@ func cmdCheck(args []string) int {
 	os.RemoveAll(smtDir)
 	os.MkdirAll(smtDir, 0o755)
 	p.u.SolveAll(obls, smtDir, timeoutS, thorough, *par)
-	// second chance for a few undecided obligations (no model, no verdict): the same queries again on an idle machine
-	// with twice the time limit. A proof close to the limit otherwise depends on machine load; a real failure
-	// stays undecided (and many undecided obligations are not a load problem: no retry then).
+	// second chance for a few undecided obligations (no model, no verdict): the same queries again, one after the
+	// other, with retryFactor times the (CPU) time limit. A proof close to the limit otherwise depends on the speed
+	// of the machine; a real failure stays undecided (and many undecided obligations are not a speed problem: no
+	// retry then). Obligations listed as known findings are expected to fail and are not retried.
 	var again []*Obligation
 	for _, o := range obls {
-		if !o.Cover && o.Result != nil && (o.Result.Status == "unknown" || o.Result.Status == "timeout") {
+		if !o.Cover && o.Result != nil && (o.Result.Status == "unknown" || o.Result.Status == "timeout") && matchFinding(findings, *prop, o) == nil {
 			again = append(again, o)
 		}
 	}
@@ -263,7 +264,7 @@ func cmdCheck(args []string) int {
 			first := o.Result
 			o.Result = nil
 			p.u.retryLite = true
-			r := p.u.Solve(o, smtDir, 2*timeoutS, false)
+			r := p.u.Solve(o, smtDir, retryFactor*timeoutS, false)
 			p.u.retryLite = false
 			if r.Status == "unsat" {
 				r.Backend += "+retry"
@@ -451,6 +452,15 @@ func cmdCheck(args []string) int {
 		}
 	}
 	tb = append(tb, "engine-modelled externs: fmt.Errorf/errors.New/errors.Join (opaque errors), fmt.Sprintf (uninterpreted), slog (dropped), strings.Clone (identity)")
+	// the discharged obligation that took the longest (margin to the limits above)
+	slowest := map[string]any{}
+	var slowMax int64 = -1
+	for _, o := range obls {
+		if !o.Cover && o.Result != nil && o.Result.Status == "unsat" && o.Result.Ms > slowMax {
+			slowMax = o.Result.Ms
+			slowest = map[string]any{"obligation": o.Name, "ms": o.Result.Ms, "backend": o.Result.Backend, "stage": o.Result.Stage}
+		}
+	}
 	ev := map[string]any{
 		"property_id": *prop,
 		"tier":        *tier,
@@ -470,6 +480,9 @@ func cmdCheck(args []string) int {
 			"contracts_relied_on":                  used,
 			"backends":                             backendCount,
 			"solver_ms_total":                      solverMs,
+			"solver_time_is":                       "CPU time of the solver processes (ms); limits are CPU time too (RLIMIT_CPU), so verdicts do not depend on machine load",
+			"solver_time_limits_s":                 map[string]int{"stage1_short_race": min(timeoutS, 3), "stage2_portfolio": timeoutS, "second_chance": retryFactor * timeoutS, "vacuity_cover": 2},
+			"slowest_obligation":                   slowest,
 			"vacuity_covers":                       covers,
 			"vacuity_covers_ok":                    coverOK,
 			"known_findings":                       knownLines,
@@ -485,9 +498,14 @@ func cmdCheck(args []string) int {
 		os.WriteFile(*evidence, b, 0o644)
 	}
 	if os.Getenv("GOVC_SLOW") != "" {
+		// development aid: GOVC_SLOW=<ms> lists the obligations whose winning query took longer (default 2500)
+		slowMs := int64(2500)
+		if n, err := strconv.ParseInt(os.Getenv("GOVC_SLOW"), 10, 64); err == nil && n > 1 {
+			slowMs = n
+		}
 		for _, o := range obls {
-			if o.Result != nil && o.Result.Ms > 2500 {
-				fmt.Printf("  slow %6d ms %-22s %s\n", o.Result.Ms, o.Result.Backend, o.Name)
+			if o.Result != nil && o.Result.Ms > slowMs {
+				fmt.Printf("  slow %6d ms stage%d %-22s %s\n", o.Result.Ms, o.Result.Stage, o.Result.Backend, o.Name)
 			}
 		}
 	}
@@ -495,6 +513,9 @@ func cmdCheck(args []string) int {
 		*prop, *tier, len(funcsUnder), nObl, discharged, restricted, len(violations), coverOK, covers, len(boundedSamples), solverMs, time.Since(t0).Seconds())
 	return exit
 }
+
+// retryFactor: time limit of the second-chance pass relative to the first pass
+const retryFactor = 3
 
 func matchFinding(fs []KnownFinding, prop string, o *Obligation) *KnownFinding {
 	for i := range fs {
